@@ -180,10 +180,11 @@ func (c *conn) writeloop() {
 					err = io.ErrClosedPipe
 				}
 				verifAt("client.writeloop.report")
+				// Close the client first: once the sender has its error, its next call must
+				// find the connection dead and reconnect, not meet it while it is still dying.
+				_ = c.terminate(err)
 				req.err <- err
 				close(req.err)
-				// Close the client
-				_ = c.terminate(err)
 				return
 			}
 			close(req.err)
